@@ -27,7 +27,9 @@ contract(C + 'ContactlessFrontend.sense', 'C18', dict(self=sclf(), targets=Fixed
                   ('post.field-off', 'implies(result is None, self.target is None and EVENTS[-1] == "mute")'),
                   ('post.order', 'result is None or result.found_by == EVENTS[-1]'),
                   ('post.dep-asked', 'implies(getattr(targets[0], "atr_req", None) is not None and len(targets[0].atr_req) >= 16 and len(targets[0].atr_req) <= 64, EVENTS[1] == "sense_dep")')],
-         raises={})
+         # a host link failure is the only thing that may come out, and it never leaves the target of an earlier
+         # sense behind ("exchange() never uses a target from an earlier sense")
+         raises={'IOError': ['self.target is None']})
 contract(C + 'ContactlessFrontend.sense', 'C18', dict(self=sclf(), targets=Fixed([ANYT()])),
          name='C18/sense[1]', setup=reset_events,
          ensures=[('post.target', 'self.target is result'),
@@ -35,7 +37,8 @@ contract(C + 'ContactlessFrontend.sense', 'C18', dict(self=sclf(), targets=Fixed
                   ('post.dep-asked', 'implies(getattr(targets[0], "atr_req", None) is not None and len(targets[0].atr_req) >= 16 and len(targets[0].atr_req) <= 64, count(EVENTS, "sense_dep") >= 1)')],
          # a target whose attributes are valid as documented (ATR_REQ of 16..64 octets) is handed to the driver;
          # ValueError for it can only be the driver's own
-         raises={C + 'UnsupportedTargetError': [], 'ValueError': ['implies(getattr(targets[0], "atr_req", None) is not None and len(targets[0].atr_req) >= 16 and len(targets[0].atr_req) <= 64, count(EVENTS, "sense_dep") >= 1)']})
+         raises={'IOError': ['self.target is None'], C + 'UnsupportedTargetError': ['self.target is None'],
+                 'ValueError': ['self.target is None', 'implies(getattr(targets[0], "atr_req", None) is not None and len(targets[0].atr_req) >= 16 and len(targets[0].atr_req) <= 64, count(EVENTS, "sense_dep") >= 1)']})
 contract(C + 'ContactlessFrontend.sense', 'C18',
          dict(self=sclf(), targets=Fixed([OneOf(Const(None), Const('106A'), Const(b'106A'))])),
          name='C18/sense.bad-argument', setup=reset_events, ensures=[('post', 'False')],
